@@ -274,6 +274,13 @@ def r3_one_outstanding(ctx, F):
             for c in b.calls_to('PartialEq::eq'):
                 vs = [noref(resolve_arg(b, b.val(a))) for a in c.args[:2]]
                 from_msg = [v for v in vs if v.kind == 'arg' and v.key == 5]
+                if not from_msg:
+                    # a binding of an or-pattern (`PutOk(id) | PutFail(id)`) has one definition per alternative
+                    from taint import origin_vals as _ov
+                    for a in c.args[:2]:
+                        ovs = _ov(b, a) if a.get('k') in ('copy', 'move') else set()
+                        if ovs and all(v.kind == 'arg' and v.key == 5 for v in ovs):
+                            from_msg = list(ovs)
                 from_state = [v for v in vs if '.awaiting' in v.fields()]
                 if from_msg and from_state:
                     guards.append(c)
@@ -303,6 +310,12 @@ def r3_one_outstanding(ctx, F):
                     e = b.branch(g, True)
                     if e and b.edges_dominate(e, s_.bb):
                         te = e
+                if not te:
+                    # `PutOk(id) | PutFail(id) if id == awaiting`: the guard is evaluated once per alternative;
+                    # together their true edges guard the arm
+                    allt = [e for g in guards for e in b.branch(g, True)]
+                    if allt and b.edges_dominate(allt, s_.bb):
+                        te = allt
                 ctx.check(bool(te), rule, 'guarded:' + role, b,
                           good='the request is sent only after a reply whose id equals `awaiting`',
                           bad='%s sends a request at %s without the reply\'s request id having been compared '
